@@ -19,6 +19,7 @@ structure Trig.Spec (T : Trig K) : Prop where
   sqrt_nonpos : ∀ x, x ≤ 0 → T.sqrt x = 0
   pi_pos : 0 < T.pi
   cos_range : ∀ x, -1 ≤ T.cos x ∧ T.cos x ≤ 1
+  cos_right : T.cos (90 * T.pi / 180) = 0
   cos_acos : ∀ x, -1 ≤ x → x ≤ 1 → T.cos (T.acos x) = x
   acos_cos : ∀ x, 0 ≤ x → x ≤ T.pi → T.acos (T.cos x) = x
   acos_range : ∀ x, -1 < x → x < 1 → 0 < T.acos x ∧ T.acos x < T.pi
